@@ -155,3 +155,29 @@ Theorem C05_text_memory : forall re_ok text ns q (M : eval_model q),
        store (Conc.run (em_lockres q M) (em_progs q M) (em_st0 q M) (alone t sched)) l).
 Proof. exact C05_text_memory_model. Qed.
 Print Assumptions C05_text_memory.
+
+(* ------------------------------------------------------------------ *)
+(* CURSOR LEVEL (Model1/Iter3.v + Clone3.v): two API calls on the SAME shared expression tree,
+   interleaved at the granularity of the individual Select / Evaluate steps of their own clones:
+   under every schedule the shared tree is unchanged and each call makes exactly its solo
+   observations.  It rests on the frame theorem (Proofs/FrameRefine3.v): no Select / Evaluate of any
+   query changes the state of a closure-captured object nested anywhere inside it — the only objects
+   a clone shares with the original. *)
+From XP.Model1 Require Import Iter3 Clone3.
+From XP.Proofs Require Import FrameRefine3 ConcRefine3.
+
+Theorem C05_cursor_level_clone_shares_nothing_mutable : forall D has_ns hc rm rn rr F q,
+  frame_wf q = true ->
+  forall (s : state3 q) (l : list call3) (k : state3 (clone_cfg3 q)),
+  calls3 D has_ns hc rm rn rr F (clone_cfg3 q) l (clone_state3 q s) = Some k -> absorb3 q k s = s.
+Proof. exact clone_independent3_all. Qed.
+Print Assumptions C05_cursor_level_clone_shares_nothing_mutable.
+
+Theorem C05_cursor_level_any_interleaving : forall D has_ns hc rm rn rr F q,
+  frame_wf q = true ->
+  forall (sched : list bool) (s0 : state3 q) (t1 t2 : thread q),
+  TInv q s0 t1 -> TInv q s0 t2 ->
+  run_sched D has_ns hc rm rn rr F q sched s0 t1 t2 =
+  (s0, solo D has_ns hc rm rn rr F q s0 (turns false sched) t1, solo D has_ns hc rm rn rr F q s0 (turns true sched) t2).
+Proof. exact interleaving_independent3. Qed.
+Print Assumptions C05_cursor_level_any_interleaving.
